@@ -133,6 +133,18 @@ def new_zipfile(ex, st, args, kwargs, node):
     return [(st, zf)]
 
 
+def _fresh_open_zip(ex, st, ctx):
+    zf = VExt("ZipFile")
+    st.assume(z3.And(n_of(zf.t) >= 0, sizes_nonneg(zf.t)))
+    st.ghost["open_zips"] = st.ghost.get("open_zips", frozenset()) | {zf.t.get_id()}
+    src = ctx.args.get("file_like")
+    if isinstance(src, VExt) and src.sort == "BytesIO":
+        t = z3.Int(fresh_name("pos"))
+        st.assume(t >= 0)
+        st.ghost[common.pos_key(src)] = t
+    return zf
+
+
 def m_close(ex, st, obj, args, kwargs, node):
     st.ghost["open_zips"] = st.ghost.get("open_zips", frozenset()) - {obj.t.get_id()}
     return [(st, NONE)]
@@ -201,6 +213,7 @@ def contracts(reg):
                  ("no-container-left-open", lambda c: z3.BoolVal(not c.st.ghost.get("open_zips")))],
         raises=[Raises("Exception", sub=True, label="any failure, position restored, container closed",
                        when=lambda c: z3.And(pos_restored(c), z3.BoolVal(not c.st.ghost.get("open_zips"))))],
+        modifies=("file_like",),
     ))
     out.append(FnContract(
         target=f"{ZB}::open_zipfile",
@@ -210,6 +223,8 @@ def contracts(reg):
                  ("returned-container-open", lambda c: z3.BoolVal(c.st.ghost.get("open_zips") == frozenset({c.result.t.get_id()})))],
         raises=[Raises("Exception", sub=True, label="closed on failure",
                        when=lambda c: z3.BoolVal(not c.st.ghost.get("open_zips")))],
+        result_maker=_fresh_open_zip,
+        modifies=("file_like",),
     ))
     return out
 
@@ -264,7 +279,7 @@ def policy(repo, tier):
                 if f not in ALLOWED_ZIPFILE_CTOR:
                     bad.append(f"{f}:{call.lineno} {c}")
     obls.append(ground_obligation("C11/package/policy#zipfile-constructed-only-in-guard-and-archive-modules",
-                                  not bad and n_sites >= 3, "; ".join(bad) or f"{n_sites} sites", "package"))
+                                  not bad and n_sites >= 1, "; ".join(bad) or f"{n_sites} sites", "package"))
     # P2: ZipContext family: the container handle comes from open_zipfile, before any member access
     zc = mods["sharepoint2text/parsing/extractors/util/zip_context.py"]
     cls = zc.classes.get("ZipContext")
